@@ -113,4 +113,8 @@ MUTANTS = [
     M('sema:qdecl:global-check-dropped', 'sema', ['C13'], 'stmt_to_asg_stmt', '            if !context.symbol_table().in_global_scope() {\n                context.insert_error(NotInGlobalScopeError, &q_decl);\n            }', ''),
     M('sema:def:global-check-inverted', 'sema', ['C13'], 'stmt_to_asg_stmt', '            if !context.symbol_table().in_global_scope() {\n                context.insert_error(NotInGlobalScopeError, &name_node);\n            }', '            if context.symbol_table().in_global_scope() {\n                context.insert_error(NotInGlobalScopeError, &name_node);\n            }'),
     M('sema:delay:duration-check-dropped', 'sema', ['C13'], 'stmt_to_asg_stmt', 'if !matches!(duration.get_type(), Type::Duration(_)) {', 'if false {'),
+    # ---- PARSER marker discipline
+    M('parser:marker:complete-wrong-slot', 'parser', ['C01', 'C02'], 'Marker::complete', 'let idx = self.pos as usize;', 'let idx = (self.pos as usize) + 1;'),
+    M('parser:marker:abandon-always-pops', 'parser', ['C01', 'C02'], 'Marker::abandon', 'if idx == p.events.len() - 1 {', 'if idx <= p.events.len() - 1 {'),
+    M('parser:marker:precede-wrong-distance', 'parser', ['C01'], 'CompletedMarker::precede', '*forward_parent = Some(new_pos.pos - self.pos);', '*forward_parent = Some(self.pos - new_pos.pos);'),
 ]
